@@ -223,6 +223,45 @@ def static_order_rule(fx, scope, op_path, emitters=STATIC_EMITTERS, private_meth
     return out
 
 
+def param_sibling_rule(fx, scope, op_path, pattern_adt="ast::Pattern", info_adt="FunctionInfo"):
+    """[(fn, kind, ok, span, why)]"""
+    out = []
+    for p, f in sorted(fx.fns.items()):
+        if f.derived or f.closure or not scope(f):
+            continue
+        infos = [(bi, s) for bi, bl in enumerate(f.blocks) for s in bl["s"]
+                 if s[0] == "a" and s[2][0] == "agg" and isinstance(s[2][1], dict) and str(s[2][1].get("p", "")).endswith(info_adt) and "rest_param" in (s[2][1].get("fields") or [])]
+        sws = [sw for sw in M.enum_switches(fx, f) if str(sw[1]).endswith(pattern_adt) and len(sw[3]) >= 3]
+        if not infos or not sws:
+            continue
+        # the switch over the parameters: the one inside a loop with the most arms
+        loops = L.natural_loops(f)
+        sws = [sw for sw in sws if any(sw[0] in body for h, body in loops)]
+        if not sws:
+            continue
+        sw = max(sws, key=lambda x: len(x[3]))
+        binds = {bi for bi, sp in op_aggs(f, op_path, "DeclareVar")} | {bi for bi, t in f.calls() if (t[1].get("d") or "").endswith("::compile_pattern_binding")}
+        for var, tgt in sorted(sw[3].items()):
+            region = M.dominated_region(f, tgt) if all(q == sw[0] for q in f.preds()[tgt]) else {tgt}
+            ok = bool(binds & region)
+            out.append((f, "binds Pattern::%s parameters" % var, ok, f.blocks[tgt]["t"][-1] if isinstance(f.blocks[tgt]["t"][-1], str) else f.span,
+                        "a `Pattern::%s` parameter is given no binding: `((a = 5) => a)()` throws `a is not defined`" % var))
+        if "Rest" in sw[3]:
+            for bi, s in infos:
+                fields = s[2][1]["fields"]
+                o = s[2][2][fields.index("rest_param")]
+                const_none = False
+                if o[0] == "k":
+                    const_none = True
+                elif o[0] in ("c", "m"):
+                    ds = f.defs().get(o[1][0], [])
+                    const_none = bool(ds) and all(si != "T" and rv[0] == "agg" and isinstance(rv[1], dict) and rv[1].get("v") == "None" for _, si, rv in ds)
+                out.append((f, "records the rest parameter", not const_none, s[3],
+                            "the FunctionInfo is built with `rest_param: None` although the parameter list may end in `...rest`: the call never packs the remaining "
+                            "arguments (`class A { constructor(...r) {} }` gets `r` undefined)"))
+    return out
+
+
 def pool_identity_rule(fx, scope, key_ty="value::JsString"):
     """[(fn, ok, span)] for functions that look a string up in a map keyed by its text and return what they found"""
     from c09 import ancestors
@@ -337,6 +376,13 @@ def run(fx, ck, OP):
         ck.instance("R16.static-elements-order", "%s: %s" % (f.path, kind), F.short_span(sp), ok=ok)
         if not ok:
             ck.finding("R16.static-elements-order", "R16.static-elements-order/%s/%s" % (f.path, kind), F.short_span(sp), "`%s`: %s" % (f.path, why))
+    # ---- R18 the compilers of a parameter list agree (T-SIB): every kind of parameter is bound, and a rest parameter is recorded
+    ck.rule("R18.parameter-list-siblings", "every function that compiles a parameter list (a match on ast::Pattern next to a FunctionInfo it builds) binds each kind of "
+                                           "parameter and records the rest parameter", floor=6)
+    for f, kind, ok, sp, why in param_sibling_rule(fx, comp, OP):
+        ck.instance("R18.parameter-list-siblings", "%s: %s" % (f.path, kind), F.short_span(sp), ok=ok)
+        if not ok:
+            ck.finding("R18.parameter-list-siblings", "R18.parameter-list-siblings/%s/%s" % (f.path, kind), F.short_span(sp), "`%s`: %s" % (f.path, why))
     # ---- R17 the constant pool shares a string slot by identity
     # Variable names are looked up by identity at run time (value::VarKey hashes and compares the allocation); a pool that hands out the slot of *equal
     # text* lets a string the compiler made itself capture the slot of an interned identifier, and the binding is not found from another chunk.
